@@ -212,7 +212,7 @@ def store_model(res, tier):
         raise vlib.Broken("an MtbddStore model mutant is no longer refuted")
 
 
-def apply_killer_histories():
+def apply_killer_histories(sz):
     """the counterexamples of the Apply model's mutants (spec/killers/apply.ndjson: operation, f, g as 8-entry tables over 3
     variables) as histories: f and g are assembled minterm by minterm (mk + plus), then combined - twice, with another
     operation in between, on one functor object"""
@@ -237,7 +237,7 @@ def apply_killer_histories():
         other = "max" if k["o"] != "max" else "plus"
         steps += [["apply2", 2, other, 0, 1], ["apply2", 3, k["o"], 0, 1], ["destroy", 2], ["apply2", 2, k["o"], 1, 0], ["destroy", 3],
                   ["apply2", 3, other, 1, 0]]
-        out.append({"op": "mtbdd", "W": W, "steps": steps, "sz": True, "reuse": True, "id": ["k", "Apply", n], "src": "killer: Apply model mutant " + k.get("mut", "")})
+        out.append({"op": "mtbdd", "W": W, "steps": steps, "sz": sz, "reuse": True, "id": ["k", "Apply", n], "src": "killer: Apply model mutant " + k.get("mut", "")})
     return out
 
 
@@ -257,15 +257,15 @@ def check_C17(tier, seed, res, replay=None):
         c = gen_mtbdd_history(rng, rng.randint(steps // 2, steps), full=True)
         c["id"] = ["c17", i]
         cases.append(c)
-    cases += apply_killer_histories()
+    cases += apply_killer_histories(False)     # exact store sizes are demanded in C18's histories only (Project may leave unreferenced nodes behind)
     res.count_cases(cases, nt)
     res.add_samples([{"steps": c["steps"][:10]} for c in cases if nt(c)][:3])
     run_mtbdd(res, rd, "c17", cases)
     # Layer 2: the binary apply on node structures (memo keyed by node pairs, branching on the higher top variable, reduction,
     # memo cleared per top-level call), every pair of functions of the bound; a second call on the same functor object
     from p_ta import model_with_mutants
-    model_with_mutants(res, "Apply.tla", "Apply3v.cfg", ["NoReduce", "KeyFirstOnly", "BranchLower", "SwapSecond"] if tier == "thorough" else [], "Apply")
-    model_with_mutants(res, "Apply.tla", "Apply2.cfg", ["KeepMemo"] if tier == "thorough" else [], "Apply")
+    model_with_mutants(res, "Apply.tla", "Apply3v.cfg" if tier == "thorough" else "Apply3v_q.cfg", ["NoReduce", "KeyFirstOnly", "BranchLower", "SwapSecond"] if tier == "thorough" else [], "Apply")
+    model_with_mutants(res, "Apply.tla", "Apply2.cfg" if tier == "thorough" else "Apply2_q.cfg", ["KeepMemo"] if tier == "thorough" else [], "Apply")
     if tier == "thorough":
         model_with_mutants(res, "Apply.tla", "Apply.cfg", [], "Apply")
 
@@ -289,6 +289,7 @@ def check_C18(tier, seed, res, replay=None):
     for k in load_killer_hists("MtbddStore.ndjson"):
         cases.append(k)
     cases += store_histories(tier)
+    cases += apply_killer_histories(True)
     res.count_cases(cases, nt)
     res.add_samples([{"steps": c["steps"][:10]} for c in cases if nt(c)][:3])
     run_mtbdd(res, rd, "c18", cases)
